@@ -43,6 +43,77 @@ struct History {
     perm2: u64,
     perm3: u64,
     steps: Vec<Step>,
+    /// the instance (and every fresh comparison instance) uses CUSTOM delimiters, set before any
+    /// template is added: `[% %]`, `{$ $}`, `[# #]`; every source is written in them
+    #[serde(default)]
+    custom_delims: bool,
+}
+
+thread_local! {
+    /// delimiters of the history being run on this thread
+    static CUSTOM_DELIMS: std::cell::Cell<bool> = const { std::cell::Cell::new(false) };
+}
+
+/// an engine as this history configures it: prefixes, then (maybe) custom delimiters
+fn mk_engine(prefixes: &[String]) -> Tera {
+    let mut t = engine(prefixes);
+    if CUSTOM_DELIMS.with(|c| c.get()) {
+        t.set_delimiters(tera::Delimiters {
+            block_start: "[%".into(),
+            block_end: "%]".into(),
+            variable_start: "{$".into(),
+            variable_end: "$}".into(),
+            comment_start: "[#".into(),
+            comment_end: "#]".into(),
+        })
+        .expect("custom delimiters on an empty instance");
+    }
+    t
+}
+
+/// the source of a summary in the delimiters of this history (same length in both spellings)
+fn src_of(t: &TplS) -> String {
+    let s = t.source();
+    if CUSTOM_DELIMS.with(|c| c.get()) {
+        s.replace("{%", "[%").replace("%}", "%]").replace("{{", "{$").replace("}}", "$}")
+    } else {
+        s
+    }
+}
+
+/// an include cycle or an extends cycle among the resolved edges of a set (the two graphs the engine
+/// must check, each on its own), from the summaries alone
+fn graph_cycle(prefixes: &[String], set: &Set) -> Option<&'static str> {
+    let names = names_of(set);
+    let idx = |n: &str| names.iter().position(|x| x == n);
+    for kind in ["include", "extends"] {
+        let adj: Vec<Vec<usize>> = names
+            .iter()
+            .map(|n| {
+                let t = &set[n];
+                let targets: Vec<String> = if kind == "include" { t.all_includes() } else { t.parent.iter().cloned().collect() };
+                targets.iter().filter_map(|x| tplgen::resolve(&names, prefixes, x).and_then(idx)).collect()
+            })
+            .collect();
+        // colours: 0 white, 1 on the stack, 2 done
+        let mut colour = vec![0u8; names.len()];
+        fn dfs(v: usize, adj: &[Vec<usize>], colour: &mut [u8]) -> bool {
+            colour[v] = 1;
+            for &w in &adj[v] {
+                if colour[w] == 1 || (colour[w] == 0 && dfs(w, adj, colour)) {
+                    return true;
+                }
+            }
+            colour[v] = 2;
+            false
+        }
+        for v in 0..names.len() {
+            if colour[v] == 0 && dfs(v, &adj, &mut colour) {
+                return Some(if kind == "include" { "include" } else { "extends" });
+            }
+        }
+    }
+    None
 }
 
 type Set = BTreeMap<String, TplS>;
@@ -53,7 +124,7 @@ static ATTEMPT_FILE: std::sync::OnceLock<std::path::PathBuf> = std::sync::OnceLo
 
 fn note_attempt(prefixes: &[String], steps: &[Step]) {
     if let Some(path) = ATTEMPT_FILE.get() {
-        let h = History { prefixes: prefixes.to_vec(), perm2: 0, perm3: 0, steps: steps.to_vec() };
+        let h = History { prefixes: prefixes.to_vec(), perm2: 0, perm3: 0, steps: steps.to_vec(), custom_delims: CUSTOM_DELIMS.with(|c| c.get()) };
         let _ = std::fs::write(path, serde_json::to_string(&h).unwrap_or_default());
     }
 }
@@ -340,9 +411,9 @@ fn fresh_snapshot(prefixes: &[String], suffixes: &[String], set: &Set, reverse: 
         note_attempt(prefixes, &[Step::Escape(suffixes.to_vec()), Step::Add(items)]);
     }
     let r = catch(AssertUnwindSafe(|| {
-        let mut t = engine(prefixes);
+        let mut t = mk_engine(prefixes);
         t.autoescape_on(suffixes.to_vec());
-        let mut pairs: Vec<(String, String)> = set.values().map(|t| (t.name.clone(), t.source())).collect();
+        let mut pairs: Vec<(String, String)> = set.values().map(|t| (t.name.clone(), src_of(t))).collect();
         if reverse {
             pairs.reverse();
         }
@@ -363,8 +434,8 @@ fn accepts(prefixes: &[String], set: &Set) -> bool {
         note_attempt(prefixes, &[Step::Add(set.values().cloned().collect())]);
     }
     catch(AssertUnwindSafe(|| {
-        let mut t = engine(prefixes);
-        t.add_raw_templates(set.values().map(|t| (t.name.clone(), t.source())).collect::<Vec<_>>()).is_ok()
+        let mut t = mk_engine(prefixes);
+        t.add_raw_templates(set.values().map(|t| (t.name.clone(), src_of(t))).collect::<Vec<_>>()).is_ok()
     }))
     .unwrap_or(false)
 }
@@ -424,7 +495,7 @@ fn files_root() -> std::path::PathBuf {
 
 impl Runner {
     fn new(prefixes: &[String], thorough: bool) -> Self {
-        let tera = engine(prefixes);
+        let tera = mk_engine(prefixes);
         let snap = snapshot(&tera, prefixes);
         let mut hasher = std::collections::hash_map::DefaultHasher::new();
         prefixes.hash(&mut hasher);
@@ -473,7 +544,7 @@ impl Runner {
         self.count(&format!("intent.{intent}"));
         match step {
             Step::Add(items) => {
-                let pairs: Vec<(String, String)> = items.iter().map(|t| (t.name.clone(), t.source())).collect();
+                let pairs: Vec<(String, String)> = items.iter().map(|t| (t.name.clone(), src_of(t))).collect();
                 let via_files = items.first().is_some_and(|t| t.via_file);
                 if via_files {
                     self.count(if items.len() == 1 { "add.via_add_template_file" } else { "add.via_add_template_files" });
@@ -630,8 +701,8 @@ impl Runner {
                 }
                 let prefixes = self.prefixes.clone();
                 let fresh = match catch(AssertUnwindSafe(|| {
-                    let mut t = engine(&prefixes);
-                    t.add_raw_templates(would_be.values().map(|t| (t.name.clone(), t.source())).collect::<Vec<_>>()).map_err(|e| canon_err(&e))
+                    let mut t = mk_engine(&prefixes);
+                    t.add_raw_templates(would_be.values().map(|t| (t.name.clone(), src_of(t))).collect::<Vec<_>>()).map_err(|e| canon_err(&e))
                 })) {
                     Ok(Ok(())) => "ok".to_string(),
                     Ok(Err(e)) => err_class(&e).to_string(),
@@ -640,6 +711,15 @@ impl Runner {
                 let mine = if rec.result == "ok" { "ok" } else if rec.result.starts_with("panic") { "panic" } else { err_class(&rec.result) };
                 if fresh != mine {
                     self.fail(idx, "acceptance", format!("the call answered `{mine}` but a fresh instance given the resulting set in one batch answers `{fresh}`"));
+                }
+                // (f) invalid "in every way: … cycle": a call whose resulting set has an include
+                //     cycle or an extends cycle (targets resolved exactly or through a fallback
+                //     prefix) must fail, whatever a fresh instance says
+                self.oracle_checks += 1;
+                if rec.result == "ok" {
+                    if let Some(kind) = graph_cycle(&self.prefixes, &would_be) {
+                        self.fail(idx, "cycle", format!("the call was accepted although the resulting set has an {kind} cycle (prefixes {:?})", self.prefixes));
+                    }
                 }
             }
         }
@@ -709,6 +789,7 @@ struct HistoryRun {
 }
 
 fn run_fixed(h: &History, intents: &[String], thorough: bool, exhaustive: bool) -> HistoryRun {
+    CUSTOM_DELIMS.with(|c| c.set(h.custom_delims));
     let mut r = Runner::new(&h.prefixes, thorough);
     for (i, s) in h.steps.iter().enumerate() {
         r.apply(s, intents.get(i).map(|s| s.as_str()).unwrap_or("replay"));
@@ -745,7 +826,7 @@ impl Gen {
     fn spell(&mut self, target: &str, names: &[String]) -> String {
         for p in self.prefixes.clone() {
             if let Some(short) = target.strip_prefix(p.as_str()) {
-                if self.rng.chance(1, 2) && tplgen::resolve(names, &self.prefixes, short) == Some(target) {
+                if self.rng.chance(3, 4) && tplgen::resolve(names, &self.prefixes, short) == Some(target) {
                     return short.to_string();
                 }
             }
@@ -1075,8 +1156,15 @@ impl Gen {
                     if x != y {
                         let mut a = self.plain(&x);
                         let mut b = self.plain(&y);
-                        a.top_includes.push(y.clone());
-                        b.blocks.push(BlockS { name: "x".into(), includes: vec![x.clone()], ..Default::default() });
+                        let mut both = names.clone();
+                        for n in [&x, &y] {
+                            if !both.contains(n) {
+                                both.push(n.clone());
+                            }
+                        }
+                        let (sx, sy) = (self.spell(&x, &both), self.spell(&y, &both));
+                        a.top_includes.push(sy);
+                        b.blocks.push(BlockS { name: "x".into(), includes: vec![sx], ..Default::default() });
                         return (vec![a, b], "pair");
                     }
                 }
@@ -1225,7 +1313,7 @@ impl Gen {
             for t in &items {
                 after.insert(t.name.clone(), t.clone());
             }
-            if items.iter().any(|t| t.syntax_error) || acyclic(&summary_graph(&self.prefixes, &after)) || !accepts(&self.prefixes, &after) {
+            if items.iter().any(|t| t.syntax_error) || acyclic(&summary_graph(&self.prefixes, &after)) || graph_cycle(&self.prefixes, &after).is_some() || !accepts(&self.prefixes, &after) {
                 return (items, label);
             }
         }
@@ -1328,8 +1416,14 @@ fn run_random(mut rng: Rng, index: u64, max_steps: usize, thorough: bool) -> His
         _ => vec!["th/".into(), "alt/".into()],
     };
     let n_steps = 1 + rng.below(max_steps);
+    // one history in six runs on an instance with custom delimiters
+    let custom_delims = rng.chance(1, 6);
+    CUSTOM_DELIMS.with(|c| c.set(custom_delims));
     let mut g = Gen { rng, prefixes: prefixes.clone(), tag: 0 };
     let mut r = Runner::new(&prefixes, thorough);
+    if custom_delims {
+        r.count("histories.custom_delimiters");
+    }
     r.count(&format!("prefixes.{}", prefixes.len()));
     let mut steps = Vec::new();
     let mut intents = Vec::new();
@@ -1341,7 +1435,7 @@ fn run_random(mut rng: Rng, index: u64, max_steps: usize, thorough: bool) -> His
     }
     r.cleanup_files();
     HistoryRun {
-        history: History { prefixes, perm2: index % 3, perm3: (index / 3) % 3, steps },
+        history: History { prefixes, perm2: index % 3, perm3: (index / 3) % 3, steps, custom_delims },
         intents,
         recs: r.recs,
         failures: r.failures,
@@ -1421,9 +1515,38 @@ fn exhaustive_histories(max_len: usize) -> Vec<(History, Vec<String>)> {
                     intents.push(format!("exhaustive.{n}"));
                     c /= k;
                 }
-                out.push((History { prefixes: vec![], perm2: idx % 3, perm3: (idx / 3) % 3, steps }, intents));
+                out.push((History { prefixes: vec![], perm2: idx % 3, perm3: (idx / 3) % 3, steps, custom_delims: false }, intents));
                 idx += 1;
             }
+        }
+    }
+    // include / extends cycles closed through SHORT names that only resolve through a fallback
+    // prefix: as one batch, and by a re-add that must fail and be rolled back
+    {
+        let plain = |n: &str| TplS::new(n);
+        let inc = |n: &str, target: &str, tag: &str| {
+            let mut t = TplS::new(n);
+            t.top_includes.push(target.to_string());
+            t.tag = tag.to_string();
+            t
+        };
+        let ext = |n: &str, target: &str, tag: &str| {
+            let mut t = TplS::new(n);
+            t.parent = Some(target.to_string());
+            t.tag = tag.to_string();
+            t
+        };
+        for (steps, what) in [
+            (vec![vec![inc("th/a", "a", "")]], "prefix_cycle.self_include_short"),
+            (vec![vec![inc("th/a", "b", ""), inc("th/b", "a", "")]], "prefix_cycle.include_pair_short"),
+            (vec![vec![plain("th/a")], vec![inc("th/b", "a", "")], vec![inc("th/a", "b", "v2")], vec![plain("c")]], "prefix_cycle.include_closed_by_readd_short"),
+            (vec![vec![plain("th/a"), inc("th/b", "a", ""), inc("th/c", "b", "")], vec![inc("th/a", "c", "v2")], vec![inc("th/a", "th/c", "v3")]], "prefix_cycle.include_3_closed_by_readd"),
+            (vec![vec![ext("th/a", "b", ""), ext("th/b", "a", "")]], "prefix_cycle.extends_pair_short"),
+            (vec![vec![plain("th/a")], vec![ext("th/b", "a", "")], vec![ext("th/a", "b", "v2")]], "prefix_cycle.extends_closed_by_readd_short"),
+        ] {
+            let n = steps.len();
+            out.push((History { prefixes: vec!["th/".into()], perm2: idx % 3, perm3: (idx / 3) % 3, steps: steps.into_iter().map(Step::Add).collect(), custom_delims: false }, vec![format!("exhaustive.{what}"); n]));
+            idx += 1;
         }
     }
     // file-based reloads: a failing call that also lists an UNCHANGED file must leave the instance
@@ -1453,8 +1576,10 @@ fn exhaustive_histories(max_len: usize) -> Vec<(History, Vec<String>)> {
         (vec![vec![raw_layout.clone()], vec![layout.clone()], vec![layout.clone(), unparsable.clone()], vec![layout.clone(), broken.clone()]], "files.raw_then_file_then_failing_reload"),
     ] {
         let n = steps.len();
-        out.push((History { prefixes: vec![], perm2: idx % 3, perm3: (idx / 3) % 3, steps: steps.into_iter().map(Step::Add).collect() }, vec![format!("exhaustive.{what}"); n]));
-        idx += 1;
+        for custom_delims in [false, true] {
+            out.push((History { prefixes: vec![], perm2: idx % 3, perm3: (idx / 3) % 3, steps: steps.iter().cloned().map(Step::Add).collect(), custom_delims }, vec![format!("exhaustive.{what}{}", if custom_delims { ".custom_delimiters" } else { "" }); n]));
+            idx += 1;
+        }
     }
     out
 }
@@ -1700,6 +1825,7 @@ fn replay(path: &str, exe: &std::path::Path, thorough: bool) {
         }
         return;
     }
+    CUSTOM_DELIMS.with(|c| c.set(h.custom_delims));
     let mut runner = Runner::new(&h.prefixes, thorough);
     let mut observed: Vec<Vec<(String, String)>> = Vec::new();
     for s in &h.steps {
@@ -2191,6 +2317,7 @@ fn main() {
             "identity" => "a failed registration call changed the instance",
             "escape" => "autoescape_on did not set exactly the flags",
             "acceptance" => "whether a registration call succeeds depends on the history, not only on the resulting set",
+            "cycle" => "a call that is invalid (it closes a cycle) did not fail",
             _ => "a registration call panicked",
         };
         report.violation("property", format!("{what}: step {}: {}", first.step, first.desc), replay_json(&small, &run, model.as_ref(), serde_json::json!({"oracle": kind, "original_failure": f})));
